@@ -21,6 +21,7 @@ RULE = (
     "empty, or the window is degenerate (a>=b); distinct = distinct case dict."
 )
 ASSUMPTIONS = [
+    "rebased crops that keep a piece no wider than 4 ulp of its rebased position are skipped (not representable after the shift)",
     "reference model in props/c06.py is the reading of the statement",
     "timestamps compared bit-for-bit without rebasing; after rebasing within 4 ulp of the exact rational",
 ]
@@ -132,6 +133,17 @@ def classify(entries, a, b, is_interval):
     return cl
 
 
+def _unrepresentable(spec, a, b, mode, rebase):
+    """A kept piece so narrow (a window edge a few ulps inside an interval) that its two ends round to the same
+    double once rebasing moves it to a larger magnitude: no implementation can return it."""
+    import math
+
+    if not rebase or a >= b or spec["type"] != "interval" or spec.get("style") == "grid":
+        return False
+    kept, lo, hi = model_interval(spec["entries"], a, b, mode, True)
+    return any((e - s_) <= 4 * math.ulp(max(abs(float(e)), abs(float(s_)), 1e-300)) for s_, e, _ in kept)
+
+
 def run_tier_case(case):
     p = P()
     spec = case["tier"]
@@ -146,6 +158,8 @@ def run_tier_case(case):
         classes.append("after_in_place_edit")
     if not is_int and len({e[0] for e in spec["entries"]}) < len(spec["entries"]):
         classes.append("coinciding_points")
+    if _unrepresentable(spec, a, b, mode, rebase):
+        return {"classes": ["skipped_unrepresentable_piece"], "nontrivial": False}
     try:
         with quiet():
             res = tier.crop(a, b, mode, rebase)
@@ -176,6 +190,8 @@ def run_tg_case(case):
     a, b, mode, rebase = case["a"], case["b"], case["mode"], case["rebase"]
     tg = mk_tg(spec)
     classes = []
+    if any(_unrepresentable(t, a, b, mode, rebase) for t in spec["tiers"]):
+        return {"classes": ["skipped_unrepresentable_piece"], "nontrivial": False}
     try:
         with quiet():
             res = tg.crop(a, b, mode, rebase)
